@@ -460,6 +460,20 @@ func (f *Frame) appendModel(instr ssa.Instruction, c *ssa.CallCommon, args []Val
 		e.assume(implies(f.guard, sle(newLen, i64(1<<48))))
 		return e.define(name, mkSlice(sReg(s), sOff(s), newLen, sCap(s)))
 	}
+	// the same for an appended part of symbolic length: one bulk update of the row, no case split on the region
+	// (builders of the form `out := make([]byte, 0, total); out = append(out, a...); out = append(out, b...)`)
+	if !inPlace.isC && !(addLen.isC && addLen.c <= smallN) && e.provedNow(f.guard, inPlace) {
+		row := e.define(name+"_old", sel(h, sReg(s)))
+		start := e.define(name+"_st", bvAdd(sOff(s), sLen(s)))
+		nr := e.havoc(name+"_row", arraySort(SBV64, el))
+		q := e.qvar()
+		qi := sym(q, SBV64)
+		body := eq(sel(nr, qi), ite(ult(bvSub(qi, start), addLen), addAt(bvSub(qi, start)), sel(row, qi)))
+		e.assume(Term{S: fmt.Sprintf("(forall ((%s (_ BitVec 64))) (! %s :pattern ((select %s %s))))", q, body.S, nr.S, q), Sort: SBool})
+		e.setHeap(f.st, hn, store(h, sReg(s), nr))
+		e.assume(implies(f.guard, sle(newLen, i64(1<<48))))
+		return e.define(name, mkSlice(sReg(s), sOff(s), newLen, sCap(s)))
+	}
 	freshReg := e.alloc(f.st, name+"_reg")
 	freshCap := e.havoc(name+"_cap", SBV64)
 	e.assume(and(sle(newLen, freshCap), sle(freshCap, i64(1<<48))))
